@@ -211,6 +211,10 @@ func nocopyCases(c *Ctx) []json.RawMessage {
 			add(StructCase{Schema: "RawBin", S: []StrSpec{{Len: n, Seed: 12}}, I: int64(slack)})
 		}
 	}
+	// values beyond a GiB (a writer may hand a huge value to the direct writer in pieces: all of them belong at the same
+	// position of the linear buffer)
+	add(StructCase{Schema: "RawStr", S: []StrSpec{{Len: 1<<30 + 4096, Seed: 9}}, I: 1})
+	add(StructCase{Schema: "RawBin", S: []StrSpec{{Len: 1<<30 + 1<<29 + 5, Seed: 10}}, I: 2})
 	return out
 }
 
